@@ -523,9 +523,9 @@ for prop, verdict in (("C01", _c01v), ("C03", _c03)):
 # unseen round of seeded changes (DESIGN section 7)
 ROUND2 = {
     "C01": [("oneof_with_switch", C.oneof_with_switch), ("switch_two_deciders", C.switch_two_deciders),
-            ("switch_two_deciders_deep", lambda: C.switch_two_deciders(True)), ("rec_none_data", C.rec_none_data),
+            ("switch_two_deciders_deep", lambda: C.switch_two_deciders(1)), ("switch_two_deciders_deep2", lambda: C.switch_two_deciders(2)), ("rec_none_data", C.rec_none_data),
             ("oneof_shared_failing_ancestor", C.oneof_shared_failing_ancestor)],
-    "C02": [("switch_two_deciders", C.switch_two_deciders), ("switch_two_deciders_deep", lambda: C.switch_two_deciders(True)),
+    "C02": [("switch_two_deciders", C.switch_two_deciders), ("switch_two_deciders_deep", lambda: C.switch_two_deciders(1)), ("switch_two_deciders_deep2", lambda: C.switch_two_deciders(2)),
             ("oneof_with_switch_unknown", C.oneof_with_switch_unknown), ("oneof_siblings_shared", C.oneof_siblings_shared),
             ("rec_retry_inside", C.rec_retry_inside)],
     "C03": [("oneof_shared_failing_ancestor", C.oneof_shared_failing_ancestor), ("switch_two_deciders", C.switch_two_deciders),
@@ -533,7 +533,7 @@ ROUND2 = {
     "C04": [("switch_two_deciders", C.switch_two_deciders), ("rec_retry_inside", C.rec_retry_inside)],
     "C05": [("oneof_with_switch_unknown", C.oneof_with_switch_unknown),
             ("oneof_shared_failing_ancestor", C.oneof_shared_failing_ancestor), ("oneof_siblings_shared", C.oneof_siblings_shared)],
-    "C09": [("switch_two_deciders", C.switch_two_deciders), ("switch_two_deciders_deep", lambda: C.switch_two_deciders(True)),
+    "C09": [("switch_two_deciders", C.switch_two_deciders), ("switch_two_deciders_deep", lambda: C.switch_two_deciders(1)), ("switch_two_deciders_deep2", lambda: C.switch_two_deciders(2)),
             ("switch_unnamed_same_decider", C.switch_unnamed_same_decider),
             ("oneof_with_switch_unknown", C.oneof_with_switch_unknown)],
     "C10": [("oneof_shared_failing_ancestor", C.oneof_shared_failing_ancestor), ("oneof_siblings_shared", C.oneof_siblings_shared),
@@ -544,3 +544,15 @@ _VERD = {"C01": _c01v, "C02": _nothing, "C03": _c03, "C04": _c04, "C05": _c05, "
 for prop, specs in ROUND2.items():
     for nm, f in specs:
         _reg(prop, "r2_" + nm, f, _VERD[prop], tier="quick", judge_hang=(prop in ("C02", "C09", "C10")), budget=400)
+
+
+def chain_none_output() -> Spec:
+    """The OUTPUT node itself may return None (or 0): a legitimate value of the run."""
+    return Spec("chain_none_output", [Node("A"), Node("B", (("a", In("A")),)),
+                                      Node("C", (("b", In("B")),), kinds=(OK, RET_NONE, RET_ZERO))], "A", "C")
+
+
+for prop in ("C01", "C02", "C05", "C13"):
+    if prop == "C13":
+        continue
+    _reg(prop, "r2_chain_none_output", chain_none_output, _VERD[prop], tier="quick", judge_hang=(prop == "C02"), budget=200)
